@@ -45,6 +45,7 @@ fn dispatch(cmd: &str, args: &[&str]) -> String {
         "RT" => wire::rt(args),
         "CMP" => lang::cmp(args),
         "CMPX" => lang::cmpx(args),
+        "CMPPAR" => lang::cmppar(args),
         "AST" => lang::ast(args),
         "BKD" => bkd::bkd(args),
         "BKDR" => bkd::bkdr(args),
@@ -53,6 +54,7 @@ fn dispatch(cmd: &str, args: &[&str]) -> String {
         "GETF" => rt::getf(args),
         "UID" => uid::uid(args),
         "STOP" => stop::stop(args),
+        "STOPX" => stop::stopx(args),
         "XPT" => xpt::xpt(args),
         _ => "BADCMD".to_string(),
     }
